@@ -12,7 +12,7 @@ From Coq Require Import List NArith ZArith Bool.
 From ApiFu Require Import Base.Sexp Intro.Utf8 Intro.IntrospectModel Intro.MarshalValue Intro.LiteralSpec
      Intro.IntrospectSpec Intro.Rebuild Intro.RebuildSpec Intro.Clone
      Intro.GraphProofs Intro.IntrospectProofs Intro.RefsProofs Intro.MarshalProofs Intro.RebuildProofs Intro.CloneProofs
-     Intro.Refuted Intro.ViewBridge Intro.FloatLex.
+     Intro.Refuted Intro.ViewBridge Intro.FloatLex Intro.VerdictBridge.
 Import ListNotations.
 
 (** ** which types are listed *)
@@ -126,8 +126,10 @@ Proof. exact introspect_refs_resolve. Qed.
     FULL STATEMENT, proved except for the value of a float's digits:
       forall S v t, enums_ok S -> inputs_ok S -> default_conforms S v t = true -> (strings of v within
       U+0000..U+FFFF without surrogates) -> exists txt, marshal S v t = MOk txt /\ literal_denotes S t txt v = true.
-    Missing: that the decimal strconv chooses for a float64 rounds back to that float64
-    (shortest-round-trip digit generation is not modelled).  [printable] carries it as a premise
+    Missing: that the decimal strconv chooses for a float64 rounds back to that float64.  This is
+    the correctness of strconv's shortest-round-trip digit generation (Ryu / Grisu with fallback)
+    and is not derivable from C05's float lemmas (coq/Val: exact integers, rounding and overflow
+    of a GIVEN decimal) without a model of that algorithm, which nobody has written.  [printable] carries it as a premise
     for each Float in the value ([float_lit_rounds (the literal read) m e = true], an exact rational
     comparison); the check evaluates exactly this premise on every generated default, and the
     real parser + coercion re-read the text. *)
@@ -231,6 +233,40 @@ Theorem C10_rebuild_same_lookups : forall S F r,
       ans_eq (FM.ask FM.fixed (to_feat R) G q) (FM.ask FM.fixed (to_feat (registered S)) F q).
 Proof. exact rebuild_same_lookups_full. Qed.
 
+(** The verdicts themselves, composed with C13's theorem about C04's validator model
+    ([C13_C04_validate_eq]: for every document, C04's [validate_model] answers the same on (S, F)
+    and on the erased schema).  C04's schema type is a third representation; the composition is
+    stated for ANY abstraction [to_vld] of C10's definitions into it, under two NAMED premises
+    that are not proved:
+      [validator_reads_only_canon] — C04's validator cannot tell two definitions apart that are
+        the same for validation in C10's sense ([canon]);
+      [erasures_agree] — C10's erased definition and C13's erasure of the registered definition,
+        both abstracted, are indistinguishable for C04's validator (in C13's own model this is
+        [erase_fsim] + [ask_sim], proved above).
+    Given them: for every document, quirk setting with the repaired getPossibleTypes, map order
+    and G ⊇ F, the validator model answers the same on the rebuilt definition R and on (S, F).
+    This is why [C10_rebuild_same_verdicts_partial] keeps its name: what is missing is exactly
+    the locality of C04's validator with respect to an abstraction function that nobody has
+    defined yet. *)
+Theorem C10_rebuild_same_verdicts_given_validator_locality :
+  forall (to_vld : schema -> VA.schema),
+  (forall X Y, canon X = canon Y ->
+     forall q pi G D, VM.validate_model q pi (to_vld X) G D = VM.validate_model q pi (to_vld Y) G D) ->
+  (forall S F q pi G D,
+     VM.validate_model q pi (to_vld (erase S F)) G D =
+     VM.validate_model q pi (FV.verase (to_vld (registered S)) F) G D) ->
+  forall S F r,
+  depth_ok S = true -> interfaces_declared_once S = true -> locations_known S = true ->
+  refs_defined S = true -> gating_nested S = true -> roots_visible S F = true ->
+  builtins_consistent S = true -> kinds_ok S = true -> scalars_accept_all S = true -> defaults_denote S ->
+  introspect (print_default S) S F = IntroOk r ->
+  exists R, rebuild (map_defaults dflt_text r) = Some R /\
+    forall q pi G D,
+      FV.vok (to_vld (registered S)) = true -> VA.subset F G = true -> ApiFu.Vld.ProofsCommon.order_ok pi ->
+      VM.q_impl_features q = true ->
+      VM.validate_model q pi (to_vld R) G D = VM.validate_model q pi (to_vld (registered S)) F D.
+Proof. exact rebuild_same_verdicts_given_locality. Qed.
+
 (** two C13 schemas that are the same up to map order and feature annotations ([fsim]) answer
     every lookup of the validator's and the executor's view alike for requests that see everything in them *)
 Theorem C10_similar_schemas_answer_alike : forall A B GA GB,
@@ -288,6 +324,7 @@ Print Assumptions C10_go_float_text_is_token.
 Print Assumptions C10_default_astral_refuted.
 Print Assumptions C10_rebuild_same_verdicts_partial.
 Print Assumptions C10_rebuild_same_lookups.
+Print Assumptions C10_rebuild_same_verdicts_given_validator_locality.
 Print Assumptions C10_similar_schemas_answer_alike.
 Print Assumptions C10_rebuild_picky_scalar_refuted.
 Print Assumptions C10_clone_same_definition.
